@@ -211,6 +211,14 @@ func (w *world) invariantClass(msg string) string {
 		if d := new(big.Int).Abs(new(big.Int).Sub(a, b)); d.Cmp(big.NewInt(conns)) <= 0 {
 			return "/" + name + "/at-most-one-unit-per-connected-lock"
 		}
+		ctx := w.A.QueryCtx()
+		for _, acc := range w.A.App.SuperfluidKeeper.GetAllIntermediaryAccounts(ctx) {
+			if asset, err := w.A.App.SuperfluidKeeper.GetSuperfluidAsset(ctx, acc.Denom); err != nil || asset.Denom != acc.Denom {
+				// governance took the denomination off the asset list: its multiplier is zero at once, the stake is only
+				// removed by the next epoch refresh; in between the registered invariant does not hold by design
+				return "/" + name + "/asset-removed-until-next-refresh"
+			}
+		}
 		return "/" + name + "/beyond-rounding"
 	}
 	return "/" + name
@@ -306,6 +314,11 @@ func refineRawClass(store string, key, va, vb []byte) string {
 	return ""
 }
 
+// osmosisStores are the KV stores of this repository's own modules: the raw-state oracle judges these.
+var osmosisStores = map[string]bool{"concentratedliquidity": true, "gamm": true, "poolmanager": true, "lockup": true, "incentives": true,
+	"poolincentives": true, "superfluid": true, "twap": true, "txfees": true, "protorev": true, "tokenfactory": true, "mint": true, "epochs": true,
+	"valsetpref": true, "downtimedetector": true, "cosmwasmpool": true, "smartaccount": true, "hooks-for-ibc": true, "rate-limited-ibc": true}
+
 // rawStateSteers lists judged classes whose loss changes how later transactions execute: the fork's suffix
 // is no longer comparable once one of them differs.
 var rawStateSteers = map[string]bool{"poolmanager/0x0b/only-A": true, "poolmanager/0x0a/only-A": true, "valsetpref/osmo/only-A": true, "concentratedliquidity/0x0e/value": true, "concentratedliquidity/0x0e/only-A": true}
@@ -321,6 +334,12 @@ func (w *world) kvDiff() {
 	for _, c := range classes {
 		if strings.HasSuffix(c, "/only-D") {
 			w.run.Count("info/raw-key-class-only-on-imported-node/" + c)
+			continue
+		}
+		if !osmosisStores[strings.SplitN(c, "/", 2)[0]] {
+			// stores of cosmos-sdk / ibc / wasm modules are outside the listed anchors (x/*/genesis.go of this
+			// repository); their exports are still compared field by field by the export oracles
+			w.run.Count("info/raw-key-class-differs-after-import/sdk-store/" + c)
 			continue
 		}
 		if _, ok := rawStateAllowed[c]; ok {
